@@ -751,6 +751,9 @@ func (run *r2parseRun) eval(st *r2parseState, x ast.Expr, nested bool) *r2parseV
 		return &r2parseVal{k: r2parseField, base: base, sel: f.Name(), typ: f.Type(), desc: exprStr(x)}
 	case *ast.StarExpr:
 		return run.eval(st, x.X, nested)
+	case *ast.TypeAssertExpr:
+		// p.(T): the same value seen at another static type — provenance is kept
+		return run.eval(st, x.X, nested)
 	case *ast.UnaryExpr:
 		if x.Op == token.AND {
 			return run.eval(st, x.X, nested)
